@@ -19,6 +19,9 @@ type RepStats struct {
 	Last []byte `json:"last"`
 	Size uint64 `json:"size"`
 	Fps  uint64 `json:"fps"`
+	// the float texts as they stand in a /status body (float32 formatting); used instead of the bits when set
+	SizeLex []byte `json:"size_lex,omitempty"`
+	FpsLex  []byte `json:"fps_lex,omitempty"`
 }
 
 type Rep struct {
@@ -132,6 +135,9 @@ func cFnum(f float64) string {
 }
 
 func (s RepStats) coq() string {
+	if s.SizeLex != nil || s.FpsLex != nil {
+		return lib.App("mk_rstats", cBytes(s.Last), "(Finite "+cBytes(s.SizeLex)+")", "(Finite "+cBytes(s.FpsLex)+")")
+	}
 	return lib.App("mk_rstats", cBytes(s.Last), cFnum(f64(s.Size)), cFnum(f64(s.Fps)))
 }
 
